@@ -77,6 +77,9 @@ def build(ex, form, D, N, L, frac, rng):
         return nf.PolynomialNonlinearFun(D, N, dealiasing_fraction=frac, coefficients=tuple(co)), "poly", dict(coefficients=co), False
     if form == "general":
         sl = [float(x) for x in rng.uniform(-1.5, 1.5, size=3)]
+        # documented usage switches terms off with exact Python zeros (default (0, -1, 0); KS in combustion form (0, 0, -1)): every on/off pattern is reached by N
+        pat = [(1, 1, 1), (0, 1, 0), (0, 0, 1), (1, 0, 1), (1, 1, 0), (0, 1, 1), (1, 0, 0)][N % 7]
+        sl = [x if on else (0 if (N + i) % 2 else 0.0) for i, (x, on) in enumerate(zip(sl, pat))]
         return nf.GeneralNonlinearFun(D, N, derivative_operator=dop, dealiasing_fraction=frac, scale_list=tuple(sl)), "general", dict(scale_list=sl), False
     if form == "vort2d":
         return nf.VorticityConvection2d(D, N, convection_scale=b, derivative_operator=dop, dealiasing_fraction=frac), "vort2d", dict(scale=b), False
